@@ -8,7 +8,8 @@ import (
 //
 // Part (a) in this file: every packetWriter.append*Frame followed by the matching consume*Frame.
 // Parts (b) arbitrary bytes, (c) transport parameters, (d) packet protection with ideal-crypto stubs are in
-// zz_verif_c28b_test.go / zz_verif_c28c_test.go / zz_verif_c28d_test.go.
+// zz_verif_c28b_test.go / zz_verif_c28c_test.go / zz_verif_c28d_test.go; (e) protected-packet parsers on arbitrary bytes
+// and (f) full packets under large datagram limits are in zz_verif_c28e_test.go / zz_verif_c28f_test.go.
 //
 // Shape I per codec (pure functions of their arguments and of the writer's remaining capacity).
 //
@@ -26,6 +27,8 @@ import (
 //   packet_parser.go consumeAckFrame `- packetNumber(gap) - 2` -> `- 1`                             CAUGHT (VerifC28_ack_parse)
 //   packet_protection.go headerKey.protect long-header mask 0x0f -> 0x1f                           CAUGHT (VerifC28_protect_long)
 //   packet_writer.go startProtectedLongHeaderPacket: space check removed                           survives (the 1200-byte limit is never tight in these harnesses; packet size accounting is C27)
+//   packet_writer.go startProtectedLongHeaderPacket: Length cap from payOff instead of pnumOff (seed C28-A)    CAUGHT (VerifC28_protect_long_full, zz_verif_c28f_test.go)
+//   packet_protection.go headerKey.unprotect: guard `pnumOff+4+sample` -> `pnumOff+sample` (seed C28-B)       CAUGHT (VerifC28_parse_protected_short/_long, zz_verif_c28e_test.go)
 
 func init() {
 	vfRegister("VerifC28_frames", VerifC28_frames)
